@@ -314,8 +314,9 @@ def gen_case(r, cid, tier, family=None, force=None):
                     needed, did = False, "clearref"
                 elif k < 0.76 and spec["family"] == "localp":
                     # (removePointsByHierarchicalCoefficient(n) reads past its arrays when n exceeds the number of points: only once, small n)
-                    g.lines.append(r.choice(["remtol g %s %d" % (vlib.hexf(r.choice([1e-2, 1e-1, 1.0])), r.choice([-1, 0]))] +
-                                            (["remcount g %d %d" % (r.randint(1, 3), r.choice([-1, 0]))] if not removed else [])))
+                    # (the count overload reads past its arrays when the count exceeds the number of points and corrupts the heap:
+                    #  it is used only in the hand-made case cLocalRemove with a safe count)
+                    g.lines.append("remtol g %s %d" % (vlib.hexf(r.choice([1e-2, 1e-1, 1.0])), r.choice([-1, 0])))
                     needed, did, removed = False, "remove", True
                 elif k < 0.82:
                     g.lines.append("setcoef g " + r.choice(fns))
@@ -379,6 +380,8 @@ def corpus_cases(r, tier):
                      "clearconformal g", "begin g", "cand g surp 0x1p-6 classic -1", "deliver g hash idx: 9 3 7", ("g", "constructing:localp", ["cand {s} surp 0x1p-6 classic -1", "deliver {s} hash idx: 0 1 2 3", "finish {s}"]),
                      "finish g", ("g", "after-finish:localp", ["refsurp {s} 0x1p-3 stable 1"])],
        sp("localp", 2, 2, rule="localp-boundary", order=2), [-0.5, 0.1, 2.5, 0.4, 1.0, 0.25], None)
+    mk("cLocalRemove", ["make localp g 2 2 3 1 localp", "load g smooth", "remcount g 9 -1", ("g", "after-remove:localp", ["refsurp {s} 0x1p-5 classic -1", "load {s} smooth"]),
+                        "remtol g 0x1p-3 0", ("g", "after-remove:localp", ["refsurp {s} 0x1p-5 fds 0"])], sp("localp", 2, 2, rule="localp", order=1), x2, None)
     mk("cLocalZero", ["make localp g 2 0 2 1 localp", ("g", "zero-outputs:localp"), "make localp g 1 0 3 0 localp", ("g", "zero-outputs:localp")], sp("localp", 2, 0), [], None)
     mk("cLocalParked", ["make localp g 2 1 1 1 localp", "begin g", "cand g surp 0x0p+0 classic -1", "deliver g hash idx: 4", ("g", "constructing:localp", ["cand {s} surp 0x0p+0 classic -1", "deliver {s} hash idx: 0 1 2"]),
                         "deliverx g hash x: 0.5 0.5", "deliverx g hash x: -0.75 0.25", ("g", "constructing:localp", ["deliverx {s} hash x: 0 0", "deliverx {s} hash x: 0.5 0 -0.5 0 0 0.5 0 -0.5", "finish {s}"])],
@@ -615,8 +618,9 @@ def trigger_of(raw, default):
     return default
 
 
-def rerun_hang(g, cmd, stats):
-    """a time-out is a hang only if the command still does not return with ten times the budget (case run alone)"""
+def rerun_hang(g, cmd, stats, what="hang"):
+    """a time-out is a hang only if the command still does not return with ten times the budget (case run alone);
+    a crash is reported only if it happens again, in the same command, when the case runs alone"""
     drv, wd = vlib.build_driver("iodrv", stats.get("variant", "plain")), stats["wd"]      # (re-resolved: the build cache may have been pruned meanwhile)
     os.makedirs(wd, exist_ok=True)
     sp = os.path.join(wd, "hang_%s.txt" % g.cid)
@@ -624,6 +628,8 @@ def rerun_hang(g, cmd, stats):
         fh.write("\n".join(g.lines) + "\n")
     rc, so, se = vlib.run([drv, sp, wd, "150"], timeout=400)
     steps = parse_output(so).get(g.cid, [])
+    if what == "crash":
+        return any(t.exc and t.exc[0].startswith("crash") and t.cmd.split()[:2] == cmd.split()[:2] for t in steps)
     return any(t.exc and t.exc[0] == "hang" for t in steps)
 
 
@@ -666,7 +672,11 @@ def evaluate(res, gens, cases, model, stats, fam_of):
             trig = trigger_of(lastraw[-1] if lastraw else {}, "?")
             if kind == "hang" and (io or restored) and not rerun_hang(g, s.cmd, stats):
                 stats["slow_cases_not_hanging_with_10x_budget"] += 1
+            elif kind == "crash" and (io or restored) and (c[0], fam, trig) not in stats["confirmed_crash_classes"] and not rerun_hang(g, s.cmd, stats, what="crash"):
+                # not reproducible when the case runs alone: memory corrupted by an earlier call (e.g. an out-of-bounds write of a history call)
+                stats["crashes_not_reproducible_alone"] += 1
             elif io:
+                stats["confirmed_crash_classes"].add((c[0], fam, trig))
                 viol("%s-in-%s:%s:%s:%s" % (kind, "read" if c[0].startswith("read") else "write", c[2] if len(c) > 2 else "?", fam, trig),
                      "%s (%s) inside '%s' (grid state: %s)" % (kind, s.exc[0], s.cmd, trig), at=steps.index(s))
             elif restored:
@@ -979,7 +989,7 @@ def run(res, tier, seed, replay_script=None):
     t0 = time.time()
     stats = {"observations": 0, "violations": 0, "model_agree": 0, "model_mismatch": 0, "model_missing": 0, "fields_compared": 0, "getter_checks": 0,
              "roundtrips": 0, "roundtrips_equal": 0, "continuations": 0, "continuations_equal": 0, "states": {},
-             "library_failures_outside_io": {}, "library_failure_examples": {}, "to_confirm": [], "failures_after_a_rejected_history_call": 0, "failures_after_a_rejected_history_call_examples": {}, "drv": drv, "wd": wd, "slow_cases_not_hanging_with_10x_budget": 0, "too_large": too_large, "model_skipped_large": 0, "derived_hash_differences": 0, "confirm_incomplete": 0, "rounding_level_differences": 0,
+             "library_failures_outside_io": {}, "library_failure_examples": {}, "to_confirm": [], "failures_after_a_rejected_history_call": 0, "failures_after_a_rejected_history_call_examples": {}, "drv": drv, "wd": wd, "slow_cases_not_hanging_with_10x_budget": 0, "crashes_not_reproducible_alone": 0, "confirmed_crash_classes": set(), "too_large": too_large, "model_skipped_large": 0, "derived_hash_differences": 0, "confirm_incomplete": 0, "rounding_level_differences": 0,
              "rounding_level_categories": {}, "continuations_confirmed_equal": 0, "rounding_sensitive_continuations_skipped": 0}
     evaluate(res, gens, cases, model, stats, None)
     vlib.log("[C06] evaluation in %.1fs" % (time.time() - t0))
@@ -1063,6 +1073,7 @@ def run(res, tier, seed, replay_script=None):
         "direct_property_violations": stats["violations"],
         "failures_after_a_rejected_history_call_not_reported": stats["failures_after_a_rejected_history_call"],
         "failures_after_a_rejected_history_call_examples": stats["failures_after_a_rejected_history_call_examples"], "timeouts_that_returned_with_10x_budget": stats["slow_cases_not_hanging_with_10x_budget"],
+        "crashes_in_io_not_reproducible_when_run_alone": stats["crashes_not_reproducible_alone"],
         "sanitizer_pass": ({"cases": nas, "observations": astats["observations"], "roundtrips_compared": astats["roundtrips"],
                             "roundtrips_bit_identical": astats["roundtrips_equal"], "library_failures_outside_io": astats["library_failures_outside_io"],
                             "examples": astats["library_failure_examples"]} if astats else None),
